@@ -146,6 +146,23 @@ func (p *Path) feasible() bool {
 			continue
 		}
 		a, b := c.Pred.Args[0], c.Pred.Args[1]
+		// comparisons between foldable integers (len of nil / of a literal)
+		if x, ok := foldInt(a); ok {
+			if y, ok := foldInt(b); ok {
+				var truth, known bool
+				switch c.Pred.S {
+				case "==":
+					truth, known = x == y, true
+				case "<":
+					truth, known = x < y, true
+				case "<=":
+					truth, known = x <= y, true
+				}
+				if known && truth != c.Val {
+					return false
+				}
+			}
+		}
 		// 0 < len(X)
 		if c.Pred.S == "<" && a.Op == "const" && a.S == "0" && b.Op == "len" {
 			eq0 := tEq(T("const", "0"), b).String()
@@ -202,4 +219,21 @@ func (P *Prog) constTable(fn *ssa.Function, pi, ri int) (map[string]string, stri
 		out[key] = val
 	}
 	return out, ""
+}
+
+// foldInt evaluates integer terms that are constant on a path: constants,
+// len(nil), len(arr literal).
+func foldInt(t *Term) (int64, bool) {
+	if n, ok := termConstInt(t); ok {
+		return n, true
+	}
+	if t.Op == "len" && len(t.Args) == 1 {
+		switch t.Args[0].Op {
+		case "nil":
+			return 0, true
+		case "arr":
+			return int64(len(t.Args[0].Args)), true
+		}
+	}
+	return 0, false
 }
